@@ -43,6 +43,8 @@ pub struct Call {
     pub body: Vec<u8>,
     /// name of the system user the (simulated) Unix socket peer runs as
     pub unix_user: Option<String>,
+    /// raw Authorization header value (takes precedence over `bearer`)
+    pub authorization: Option<Vec<u8>>,
 }
 
 impl Daemon {
@@ -98,8 +100,10 @@ impl Daemon {
                     let _ = conn.await;
                 });
                 let mut b = hyper::Request::builder().method(c.method.as_str()).uri(c.path.as_str()).header("host", "localhost");
-                if let Some(t) = &c.bearer {
-                    b = b.header("authorization", format!("Bearer {t}"));
+                if let Some(a) = &c.authorization {
+                    b = b.header("authorization", hyper::header::HeaderValue::from_bytes(a).map_err(|e| format!("request: {e}"))?);
+                } else if let Some(t) = &c.bearer {
+                    b = b.header("authorization", hyper::header::HeaderValue::from_bytes(format!("Bearer {t}").as_bytes()).map_err(|e| format!("request: {e}"))?);
                 }
                 if !c.body.is_empty() {
                     b = b.header("content-type", "application/json");
